@@ -128,7 +128,7 @@ func init() {
 			r.Floor("planned steps", n, 3)
 			// givens
 			ok := false
-			ast.Inspect(fi.Decl.Body, func(nd ast.Node) bool {
+			fi.inspect(fi.Decl.Body, func(nd ast.Node) bool {
 				f, isFor := nd.(*ast.ForStmt)
 				if !isFor || f == a.loop || fi.within(f, a.loop) {
 					return true
@@ -371,7 +371,7 @@ func init() {
 					"Name":       ".Name{param:",
 				}
 				m := 0
-				ast.Inspect(pf.Decl.Body, func(nd ast.Node) bool {
+				pf.inspect(pf.Decl.Body, func(nd ast.Node) bool {
 					cl, ok := nd.(*ast.CompositeLit)
 					if !ok || !isNamed(pf.Info.TypeOf(cl), pathW, "Provider") {
 						return true
@@ -473,7 +473,7 @@ func init() {
 					continue
 				}
 				found := 0
-				ast.Inspect(fi.Decl.Body, func(nd ast.Node) bool {
+				fi.inspect(fi.Decl.Body, func(nd ast.Node) bool {
 					sw, ok := nd.(*ast.SwitchStmt)
 					if !ok || sw.Tag != nil {
 						return true
@@ -522,7 +522,7 @@ func init() {
 				}
 				r.Floor("callKind constants", len(consts), 4)
 				found := false
-				ast.Inspect(ip.Decl.Body, func(nd ast.Node) bool {
+				ip.inspect(ip.Decl.Body, func(nd ast.Node) bool {
 					sw, ok := nd.(*ast.SwitchStmt)
 					if !ok || sw.Tag == nil || ck == nil || !types.Identical(ip.Info.TypeOf(sw.Tag), ck) {
 						return true
